@@ -151,6 +151,7 @@ def run(ctx, col, tier):
     col.guard(compaction, ctx, col)
     col.guard(selection, ctx, col)
     col.guard(node_subtree_start, ctx, col)
+    col.guard(iterables_once, ctx, col)
 
     for q, what in ((f"{TU}.get_subtree", "get_subtree"), (f"{TU}.to_subtree", "to_subtree"),
                     (f"{TU}.cut_tree", "cut_tree")):
@@ -549,3 +550,32 @@ def node_subtree_start(ctx, col):
                 f"phantom root", stmt="node-subtree-start", definite=True)
     else:
         col.unresolved("R-SELECT", d.qualname, d.loc(calls[0]), "Node.subtree starts the extraction at the node's id", f"start argument `{a}`", stmt="node-subtree-start")
+
+
+
+def iterables_once(ctx, col):
+    """The public pruning functions take the node set as an Iterable: a generator / map / filter object is a legal argument, and it can be walked once."""
+    from .c19 import consumptions, _ln
+    col.rule("R-ITER", "a parameter of a public tree operation that is annotated Iterable (the removal set) is iterated at most once unless first bound to a materialised copy: "
+             "a second pass over a generator sees nothing, so nothing is removed and the whole tree comes back without an error", floor=1)
+    n = 0
+    for d in ctx.repo.all_defs():
+        if d.module.name not in ("swcgeom.core.tree_utils", "swcgeom.core.tree_utils_impl", "swcgeom.core.swc_utils.subtree") or d.is_lambda or d.parent is not None or d.name.startswith("_"):
+            continue
+        for p_ in d.params:
+            ann = d.param_annotation(p_)
+            a = norm_src(ann) if ann is not None else ""
+            if not (a.startswith(("Iterable[", "Iterator[", "Optional[Iterable[")) or a in ("Iterable", "Iterator")):
+                continue
+            n += 1
+            cons, rebound = consumptions(d, p_)
+            eff = [c for c in cons if rebound is None or _ln(c) <= rebound]
+            what = f"{d.name}({p_}: {a}) is walked once"
+            if len(eff) <= 1:
+                col.ok("R-ITER", d.qualname, d.loc(), what, f"iterated {len(eff)} time(s)", stmt=f"iter:{p_}")
+            else:
+                col.bad("R-ITER", d.qualname, d.loc(eff[1] if hasattr(eff[1], "lineno") else eff[1].iter), what,
+                        f"`{p_}` is iterated {len(eff)} times (lines {', '.join(str(_ln(c)) for c in eff)}): for a generator / iter() / map() / filter() argument the later pass is empty, "
+                        f"so the ids it should mark are never marked and the operation returns the whole tree", stmt=f"iter:{p_}", definite=True)
+    if not n:
+        col.ok("R-ITER", "iter-scan", "", "no Iterable-annotated parameter in the public pruning functions", "", stmt="iter-scan")
